@@ -260,7 +260,12 @@ fn c03_truncate_at_4() {
 fn c03_truncate_noop() {
     let beyond: bool = kani::any();
     let (mut a, old) = toy();
-    keep(a.truncate(if beyond { SZ + 4 } else { SZ })).unwrap();
+    // literal cut per arm: a cut chosen by `beyond` would be symbolic inside truncate
+    if beyond {
+        keep(a.truncate(SZ + 4)).unwrap();
+    } else {
+        keep(a.truncate(SZ)).unwrap();
+    }
     let v = view(&a);
     assert!(v.size == SZ && v.string_cell == Some(4) && v.pointer == Some((0, 8)) && v.label_l == Some(8) && v.cstring == Some(8), "C03: truncating at or beyond the size must change nothing");
     for i in 0..SZ {
